@@ -32,6 +32,15 @@ impl Translation2 {
     #[verifier::external_body]
     pub fn mul_p(&self, p: Point2) -> (r: Point2) ensures r.x@ == self.x@ + p.x@, r.y@ == self.y@ + p.y@ { unimplemented!() }
 }
+impl vstd::std_specs::ops::MulSpecImpl<Point2> for Translation2 {
+    open spec fn obeys_mul_spec() -> bool { false }
+    open spec fn mul_req(self, rhs: Point2) -> bool { true }
+    open spec fn mul_spec(self, rhs: Point2) -> Point2 { arbitrary() }
+}
+/// Translation2 * Point2
+impl Mul<Point2> for Translation2 { type Output = Point2;
+    #[verifier::external_body]
+    fn mul(self, p: Point2) -> (r: Point2) ensures r.x@ == self.x@ + p.x@, r.y@ == self.y@ + p.y@ { unimplemented!() } }
 #[derive(Clone, Copy)]
 pub struct Rotation2 { pub angle: F }
 impl Rotation2 {
